@@ -505,3 +505,59 @@ def load_example(case):
     except Exception:  # noqa
         sdn.namespace_manager.default = "DEFAULT"
         return None
+
+
+# ------------------------------------------------------------------------------------------------
+# directed recipes past the size thresholds random designs rarely reach (fixed cases)
+
+def _leaf(flat, name, ports=(("i", 1, 2), ("o", 1, 3))):
+    return {"_flat": flat, "name": name, "cables": [], "children": [], "conns": [], "data": {},
+            "ports": [{"name": n, "w": w, "lo": 0, "arr": w > 1, "downto": True, "dir": d} for n, w, d in ports]}
+
+
+COLLIDING_FAMILY = ["n.1", "n/1", "n 1", "n$1", "n-1", "n+1", "n#1", "n@1", "n!1", "n~1", "n^1", "n|1", "n<1",
+                    "n>1"]
+
+
+def stress_recipes():
+    """name -> recipe"""
+    out = {}
+    # (a) 9..14 siblings whose names all sanitise to the same identifier (counter gains a digit)
+    for n in (9, 11, 12, 14):
+        names = COLLIDING_FAMILY[:n]
+        top = {"_flat": 1, "name": "top", "ports": [], "data": {}, "conns": [],
+               "cables": [{"name": nm, "w": 1, "lo": 0, "arr": False, "downto": True} for nm in names],
+               "children": [{"name": nm, "ref": 0, "data": {}} for nm in names]}
+        out["colliding-%d" % n] = {"name": "n", "libs": [{"name": "work", "defs": [_leaf(0, "leaf"), top]}],
+                                   "def_perm": [], "lib_perm": [], "top": 1, "top_mode": "standalone",
+                                   "top_name": "top_i"}
+    # (b) a library that already holds <name>_sdn_unique_0 .. _10 and a definition shared twice
+    defs = [_leaf(0, "leaf"),
+            {"_flat": 1, "name": "sub", "ports": [], "data": {}, "conns": [], "cables": [],
+             "children": [{"name": "l0", "ref": 0, "data": {}}]}]
+    for k in range(11):
+        defs.append({"_flat": 2 + k, "name": "sub_sdn_unique_%d" % k, "ports": [], "data": {}, "conns": [],
+                     "cables": [], "children": [{"name": "l0", "ref": 0, "data": {}}]})
+    defs.append({"_flat": 13, "name": "top", "ports": [], "data": {}, "conns": [], "cables": [],
+                 "children": [{"name": "s%d" % k, "ref": 1, "data": {}} for k in range(3)]})
+    out["unique-suffixes-0-10-taken"] = {"name": "n", "libs": [{"name": "work", "defs": defs}], "def_perm": [],
+                                         "lib_perm": [], "top": 13, "top_mode": "standalone",
+                                         "top_name": "top_i"}
+    # (c) six levels, 60-character instance names (paths beyond 255 characters), one net through all
+    #     levels, a fan-out of 40 at the bottom
+    defs = [_leaf(0, "leaf")]
+    depth = 6
+    for lvl in range(depth):
+        kids = [{"name": ("u%d_" % lvl) + "x" * 56, "ref": lvl, "data": {}}]
+        conns = [[["p", 0, 0], [0, 0]], [["i", 0, 0, 0], [0, 0]]]
+        if lvl == 0:
+            kids += [{"name": "fan%02d" % k, "ref": 0, "data": {}} for k in range(40)]
+            conns += [[["i", 1 + k, 0, 0], [0, 0]] for k in range(40)]
+        defs.append({"_flat": lvl + 1, "name": "lvl%d" % lvl, "data": {},
+                     "ports": [{"name": "i", "w": 1, "lo": 0, "arr": False, "downto": True, "dir": 2}],
+                     "cables": [{"name": "w", "w": 1, "lo": 0, "arr": False, "downto": True}],
+                     "children": kids, "conns": conns})
+    out["deep-long-names-fanout"] = {"name": "n", "libs": [{"name": "work", "defs": defs}], "def_perm": [],
+                                     "lib_perm": [], "top": depth, "top_mode": "standalone",
+                                     "top_name": "top_i"}
+    return out
